@@ -44,6 +44,9 @@ def parse_script(spec: Iterable[Any]) -> list[Outcome]:
         if s.startswith('ok+note'):      # ... a note that follows what OTHERS wrote into the status: one more own write per foreign status edit
             out.append(Outcome('ok', patch={'status': {'noted': '$foreign'}}))
             continue
+        if s.startswith('ok+uid'):       # the handler notes in the status WHICH object (uid) it was invoked for
+            out.append(Outcome('ok', patch={'status': {'by': '$uid'}}))
+            continue
         if s.startswith('ok+seen'):      # the handler leaves a note in the status through its patch kwarg (idempotent)
             out.append(Outcome('ok', patch={'status': {'seen': s[7:] or 'x'}}))
             continue
